@@ -25,7 +25,7 @@ from typing import List
 from typing import Optional
 from typing import Tuple
 
-from .stepclock import LIB_DIR
+from . import monitor
 from .stepclock import StepBudgetExceeded
 
 ACTIVE: Optional["Sim"] = None
@@ -93,20 +93,16 @@ class Sim:
         return [self.threads[n] for n in self.order if not self.threads[n].finished and self.threads[n].blocked_on is None and self.threads[n] is not exclude]
 
     # ------------------------------------------------------------------
-    def _global(self, frame: Any, event: str, arg: Any) -> Any:
-        code = frame.f_code
-        if code.co_filename.startswith(LIB_DIR) or code in TRACED_CODE:
-            if self.opcode:
-                frame.f_trace_opcodes = True
-            return self._local
-        return None
+    # pre-emption points: sys.monitoring events inside library code (dst.monitor).
+    # Only simulated threads execute library code while a simulation runs.
+    def _on_line(self, code: Any, line: int) -> Any:
+        if not self.opcode:
+            self._point(code)
 
-    def _local(self, frame: Any, event: str, arg: Any) -> Any:
-        if event == "line" or (self.opcode and event == "opcode"):
-            self._point(frame)
-        return self._local
+    def _on_instruction(self, code: Any, offset: int) -> Any:
+        self._point(code)
 
-    def _point(self, frame: Any) -> None:
+    def _point(self, code: Any) -> None:
         cur = self.current
         assert cur is not None
         if self.aborted is not None:
@@ -131,7 +127,7 @@ class Sim:
             raise self.aborted
         nxt = self._decide(cur)
         if nxt is not None and nxt is not cur:
-            site = f"{frame.f_code.co_filename.rsplit('/', 1)[-1]}:{frame.f_code.co_name}"
+            site = f"{code.co_filename.rsplit('/', 1)[-1]}:{code.co_name}"
             self._switch(cur, nxt, site)
 
     def _switch(self, cur: SimThread, nxt: SimThread, site: str) -> None:
@@ -209,11 +205,7 @@ class Sim:
         t.sem.acquire()
         try:
             if self.aborted is None:
-                sys.settrace(self._global)
-                try:
-                    t.fn()
-                finally:
-                    sys.settrace(None)
+                t.fn()
         except BaseException as exc:  # noqa: BLE001
             t.exc = exc
         finally:
@@ -264,6 +256,7 @@ class Sim:
             t.thread = threading.Thread(target=self._body, args=(t,), name=f"sim-{name}", daemon=True)
             t.thread.start()
         ACTIVE = self
+        monitor.switch_on(self._on_line, self._on_instruction if self.opcode else None)
         try:
             if self.feed is not None:
                 first = self.threads[self.order[0]]
@@ -311,6 +304,7 @@ class Sim:
                     assert t.thread is not None
                     t.thread.join()
         finally:
+            monitor.switch_off()
             ACTIVE = None
 
 
